@@ -130,6 +130,29 @@ def cell_limits(model, grid):
     return {nm: [hexf(getattr(model, nm).centre.lower_limit), hexf(getattr(model, nm).centre.upper_limit)] for nm in grid}
 
 
+def grid_of(c, objs):
+    """the grid_priors argument: the grid priors, then (`grid_dup`) some of them a second time -- the very same
+    prior object reached through a second path of the model; the number of grid dimensions is the number of DISTINCT priors"""
+    return [objs[nm] for nm in c["grid"]] + [objs[nm] for nm in c.get("grid_dup", [])]
+
+
+def gridlist_obs(gl, numeric=True):
+    """what a per-cell GridList reports: its shape, its length and its layout on the native grid"""
+    import numpy as np
+    out = {"shape": list(gl.shape), "len": len(gl)}
+    if not numeric:
+        return out
+    try:
+        nat = gl.native
+        out["native_shape"] = list(nat.shape)
+        if numeric:
+            flat = [x for x in np.asarray(nat).flatten(order="C")]
+            out["rowmajor"] = len(flat) == len(gl) and all(a == b or (a != a and b != b) for a, b in zip(flat, list(gl)))
+    except ValueError as e:
+        out["native_exc"] = str(e)[:120]
+    return out
+
+
 def grid_object(c, shared, search=None):
     """the GridSearch a case runs on: a fresh one, or -- inside a history -- THE shared object, whose public
     attributes are set to this use's values the way a user refining a grid would set them"""
@@ -213,7 +236,7 @@ def run_case(c, shared=None):
         n = c["n"]
         model, objs, _ = model_for(c, shared)
         gs = grid_object(c, shared)
-        grid = [objs[nm] for nm in c["grid"]]
+        grid = grid_of(c, objs)
         mappers = list(gs.model_mappers(model, grid))
         names = [p[0] for p in c["priors"]]
         return {"mappers": [describe(mp, model, names) for mp in mappers], "original": describe(model, model, names),
@@ -248,6 +271,9 @@ def run_case(c, shared=None):
         obj.number_of_steps = tuple(ns) if c["as_tuple"] else ns[0]
         obj.perturb_model = af.Collection(*[af.Model(af.Gaussian, centre=af.UniformPrior(0.0, 1.0), normalization=1.0, sigma=1.0)
                                             for _ in ns])
+        for k, attr, src in c.get("share", []):
+            # component k's attribute is driven by the very prior of component src's centre: no new dimension
+            setattr(obj.perturb_model[k], attr, obj.perturb_model[src].centre)
         obj.limit_scale = 1
         lists = obj._lists
         return {"lists": hexrows(lists), "shape": list(obj.shape)}
@@ -285,7 +311,7 @@ def jobs_run(c, shared=None):
     model, objs, pri = model_for(c, shared)
     names = sorted(c["grid"])
     gs = grid_object(c, shared, MockSearch(name="jb%d" % c["idx"]))
-    grid = [objs[nm] for nm in c["grid"]]
+    grid = grid_of(c, objs)
     gs.paths.model = model
     gs.paths.search = gs
     jobs = gs.make_jobs(model, Analysis([p for nm in names for p in pri if p[0] == nm], n), grid)
@@ -305,7 +331,7 @@ def fit_run(c, shared=None):
     analysis = Analysis([p for nm in names for p in pri if p[0] == nm], n)
     cores = c.get("cores", 1)
     gs = grid_object(c, shared, MockSearch(name="gs%d" % c["idx"]))
-    grid = [objs[nm] for nm in c["grid"]]
+    grid = grid_of(c, objs)
     builders, log, progress = [], {}, []
 
     class Capture(ResultBuilder):
@@ -332,6 +358,7 @@ def fit_run(c, shared=None):
     with open(gs.paths.output_path / "results.csv") as f:
         lines = f.read().strip().splitlines()
     header = [x.strip() for x in lines[0].split(",")]
+    lls = res.log_likelihoods()
     csv_rows = []
     for ln in lines[1:]:
         parts = [x.strip() for x in ln.split(",")]
@@ -340,6 +367,20 @@ def fit_run(c, shared=None):
     b = builders[-1]
     return {
         "shape": list(res.shape), "no_steps": res.no_steps, "no_dimensions": res.no_dimensions,
+        "side_length": res.side_length, "n_grid_priors": len(res.grid_priors),
+        "row_lengths": sorted({len(x) for lst in (res.lower_limits_lists, res.upper_limits_lists, res.centres_lists,
+                                                  res.physical_lower_limits_lists, res.physical_upper_limits_lists,
+                                                  res.physical_centres_lists) for x in lst}),
+        "gridlists": {
+            "samples": gridlist_obs(res.samples, False),
+            "lower_limits_lists": gridlist_obs(res.lower_limits_lists, False),
+            "physical_lower_limits_lists": gridlist_obs(res.physical_lower_limits_lists, False),
+            "physical_centres_lists": gridlist_obs(res.physical_centres_lists, False),
+            "physical_upper_limits_lists": gridlist_obs(res.physical_upper_limits_lists, False),
+            "log_likelihoods": gridlist_obs(lls),
+            "figure_of_merits": gridlist_obs(res.figure_of_merits(use_log_evidences=False)),
+            **{"attribute_grid(%s.centre)" % nm: gridlist_obs(res.attribute_grid("%s.centre" % nm)) for nm in c["grid"]},
+        },
         "lower": hexrows(res.lower_limits_lists),
         "samples": [cell_limits(sm.model, c["grid"]) for sm in res.samples],
         "csv_header": header, "csv": csv_rows,
@@ -406,12 +447,21 @@ class _PerturbFit:
         return _result(model, 2.0 * _encode(dataset, self.weights) + 1.0, dataset, paths)
 
 
+def tie(perturb_model, c):
+    """`tied` = [[attribute, source attribute], ...]: the attribute is driven by the very prior object of the source
+    attribute (perturb_model.sigma = perturb_model.centre), so the model has fewer free parameters than attributes
+    holding a prior"""
+    for attr, src in c.get("tied", []):
+        setattr(perturb_model, attr, getattr(perturb_model, src))
+    return perturb_model
+
+
 def make_sensitivity(c, name):
     """perturb priors are CREATED in the order of c["priors"] (= prior id order), whatever their attribute name"""
     kw = {"centre": 1.0, "normalization": 1.0, "sigma": 1.0}
     for nm, lo, hi in c["priors"]:
         kw[nm] = af.UniformPrior(lower_limit=unhex(lo), upper_limit=unhex(hi))
-    perturb_model = af.Model(af.Gaussian, **kw)
+    perturb_model = tie(af.Model(af.Gaussian, **kw), c)
     instance = af.ModelInstance()
     instance.gaussian = af.Gaussian()
     weights = [(nm, unhex(w)) for nm, w in c["weights"]]
@@ -434,7 +484,7 @@ def perturb_model_of(c):
     kw = {"centre": 1.0, "normalization": 1.0, "sigma": 1.0}
     for nm, lo, hi in c["priors"]:
         kw[nm] = af.UniformPrior(lower_limit=unhex(lo), upper_limit=unhex(hi))
-    return af.Model(af.Gaussian, **kw)
+    return tie(af.Model(af.Gaussian, **kw), c)
 
 
 def sens_run(c, shared=None):
@@ -469,7 +519,30 @@ def sens_run(c, shared=None):
     for ln in lines[1:]:
         parts = [x.strip() for x in ln.split(",")]
         rows.append([int(parts[0])] + [None if x == "" else hexf(float(x)) for x in parts[1:]])
+    pm = sens.perturb_model
+    lat = sens._lists
     return {"shape": list(res.shape), "n": len(res.samples), "cells": cells, "n_perturb": len(res.perturb_samples),
+            "sens_shape": list(sens.shape), "lattice_len": len(lat), "lattice_rows": sorted({len(x) for x in lat}),
+            "prior_count": pm.prior_count, "n_headers": len(list(sens._headers)),
+            "slots": [([i for i, q in enumerate(pm.priors_ordered_by_id) if q is getattr(pm, a)] or [None])[0]
+                      if isinstance(getattr(pm, a), af.Prior) else None for a in ATTRS],
+            "tied_same": all(getattr(sm.model.perturb, a) is getattr(sm.model.perturb, b)
+                             for sm in res.perturb_samples for a, b in c.get("tied", [])),
+            "tied_dataset": all(sm.c16_dataset[a] == sm.c16_dataset[b] for sm in list(res.samples) + list(res.perturb_samples)
+                                for a, b in c.get("tied", [])),
+            "gridlists": {
+                "samples": gridlist_obs(res.samples, False),
+                "perturb_samples": gridlist_obs(res.perturb_samples, False),
+                "log_likelihoods_base": gridlist_obs(res.log_likelihoods_base),
+                "log_likelihoods_perturbed": gridlist_obs(res.log_likelihoods_perturbed),
+                "log_likelihood_differences": gridlist_obs(res.log_likelihood_differences),
+                "log_evidences_base": gridlist_obs(res.log_evidences_base),
+                "log_evidences_perturbed": gridlist_obs(res.log_evidences_perturbed),
+                "log_evidence_differences": gridlist_obs(res.log_evidence_differences),
+                "figure_of_merits": gridlist_obs(res.figure_of_merits(use_log_evidences=False)),
+                **{"perturbed_physical_centres_list_from(perturb.%s)" % nm:
+                   gridlist_obs(res.perturbed_physical_centres_list_from("perturb.%s" % nm)) for nm in names},
+            },
             "csv_header": header, "csv": rows,
             "base_dataset": [{nm: hexf(sm.c16_dataset[nm]) for nm in names} for sm in res.samples],
             "perturb_dataset": [{nm: hexf(sm.c16_dataset[nm]) for nm in names} for sm in res.perturb_samples],
@@ -481,7 +554,7 @@ def sens_run(c, shared=None):
             "ll_diff": [hexf(x) for x in res.figure_of_merits(use_log_evidences=False)],
             "ev_diff": [hexf(x) for x in res.figure_of_merits(use_log_evidences=True)],
             "centres_from": {nm: [hexf(x) for x in res.perturbed_physical_centres_list_from("perturb.%s" % nm)] for nm in names},
-            "native_shape": list(res.log_likelihoods_base.native.shape)}
+            "native_shape": gridlist_obs(res.log_likelihoods_base).get("native_shape")}
 
 
 class _UnitPrior:
